@@ -7,6 +7,14 @@ import importlib
 
 CLAIMED = {
  # id: (technique, level_note, design_ref)
+ 'C06': ('ast table/dispatch checks: exhaustive operator and predicate tables, must-pass-through of masked_invalid, mask-dropping-conversion lint on the value paths, result-dtype source',
+         'Decides the dispatch structure for all 16 operators and 8 mask predicates, masked_invalid on the value path, no mask-dropping conversion '
+         'between computation and store (pncbo, eval), result dtype from the computed value, coordinate pass-through. Not decided: elementwise values, '
+         'what an eval expression computes. Trusted: frozen table of mask-dropping numpy conversions.', '4/C06'),
+ 'C12': ('size algebra on the unit table, constant evaluation of the calendar table, information-flow lint for time of day, radix (units-of-measure) typing of YYYYJJJ/HHMMSS values with reaching-use reporting',
+         'Decides: unit-denominator table consistent for all calendar lengths; calendar aliases map to years of the right length; sub-day offset reaches the '
+         'output; date values meet only date radices/slots and time values only time radices/slots in 14 decoder/encoder functions; astimezone before dropping '
+         'tzinfo. Not decided: agreement with an independent CF-time implementation, reference-date parsing. Trusted: IOAPI column convention; calendar.isleap on literals.', '4/C12'),
  'C05': ('ast path walker + alias/view provenance lattice (must-alias write sinks, result-aliasing sinks), typestate rule for the native close',
          'Decides: no non-mutator method/function writes storage that must-alias its receiver or arguments; no result variable / dimension '
          'table is a view of an input (incl. the zero-iteration path of copying loops); native close guarded by isopen(). Not decided: aliasing '
